@@ -1325,8 +1325,31 @@ class SQLModel:
                 if k in subusing
             }
         else:
-            subsql.terms = []
+            # a raw query step (SQLNode, ConvertRecordsNode) has no term list to narrow: select from it
+            subsql = self._select_from_raw_near_sql_(
+                subsql,
+                columns=[
+                    k for k in select_columns_node.column_selection if k in subusing
+                ],
+                node=select_columns_node,
+                temp_id_source=temp_id_source,
+            )
         return subsql
+
+    def _select_from_raw_near_sql_(self, subsql, *, columns, node, temp_id_source):
+        """
+        Wrap a near SQL step that carries no term list in a SELECT of the given columns.
+        """
+        view_name = "select_columns_" + str(temp_id_source[0])
+        temp_id_source[0] = temp_id_source[0] + 1
+        return data_algebra.near_sql.NearSQLUnaryStep(
+            terms={ci: None for ci in columns},
+            query_name=view_name,
+            quoted_query_name=self.quote_identifier(view_name),
+            sub_sql=subsql.to_bound_near_sql(columns=columns),
+            annotation=str(node.to_python_src_(print_sources=False, indent=-1)),
+            ops_key=f"select_columns({node})",
+        )
 
     def drop_columns_to_near_sql(
         self,
@@ -1352,6 +1375,18 @@ class SQLModel:
             db_model=self, using=subusing, temp_id_source=temp_id_source
         )
         # /limit columns
+        if subsql.terms is None:
+            # a raw query step (SQLNode, ConvertRecordsNode) has no term list to narrow: select from it
+            return self._select_from_raw_near_sql_(
+                subsql,
+                columns=[
+                    k
+                    for k in drop_columns_node.column_names
+                    if (k in using) and (k not in drop_columns_node.column_deletions)
+                ],
+                node=drop_columns_node,
+                temp_id_source=temp_id_source,
+            )
         subsql.terms = {
             k: subsql.terms[k]
             for k in using
